@@ -241,7 +241,9 @@ CHECKS = {
         note="the small-buffer composition repeats the 25 lines of sendPSyncCmd in the harness (sizes are constants in the tool); the production composition itself is run on a subset",
         rule="execution = (framing, RDB size, tail, bufio size, consumer mode, cut set); states = distinct executions; transitions = segments delivered; non-trivial = executions with at least one cut",
         parts=[dict(pkg="./redis-shake/dbSync", harness=["dbsync"], test="^TestVerif_C05$", shards=16, gomaxprocs=2, budget=dict(quick=75, thorough=1200)),
-               dict(pkg="./redis-shake", harness=["run"], test="^TestVerif_C05D$", shards=16, gomaxprocs=2, budget=dict(quick=60, thorough=600))],
+               dict(pkg="./redis-shake", harness=["run"], test="^TestVerif_C05D$", shards=16, gomaxprocs=2, budget=dict(quick=60, thorough=600)),
+               # the whole dump command: 1-3 sources x dump workers
+               dict(pkg="./redis-shake", harness=["run"], test="^TestVerif_C05M$", shards=4, gomaxprocs=2, budget=dict(quick=60, thorough=120))],
     ),
     "C07": dict(
         level="model_checking",
@@ -258,7 +260,9 @@ CHECKS = {
         parts=[dict(pkg="./redis-shake/dbSync", harness=["dbsync"], test="^TestVerif_C07$", race=True, race_test="^TestVerif_C07Race$", race_shards=4, shards=16, gomaxprocs=1, budget=dict(quick=75, thorough=1200)),
                dict(pkg="./redis-shake", harness=["run"], test="^TestVerif_C07R$", race=True, race_test="^TestVerif_C07RRace$", race_shards=4, shards=16, gomaxprocs=1, budget=dict(quick=75, thorough=1200)),
                # the whole restore command: 1-4 input files x file-level workers x per-file workers
-               dict(pkg="./redis-shake", harness=["run"], test="^TestVerif_C07M$", shards=8, gomaxprocs=4, budget=dict(quick=75, thorough=300))],
+               dict(pkg="./redis-shake", harness=["run"], test="^TestVerif_C07M$", shards=8, gomaxprocs=4, budget=dict(quick=75, thorough=300)),
+               # the whole sync command: 1-3 standalone sources into one target, with and without resume
+               dict(pkg="./redis-shake", harness=["run"], test="^TestVerif_C07S$", shards=8, gomaxprocs=2, budget=dict(quick=75, thorough=300))],
     ),
     "C16": dict(
         level="model_checking",
@@ -273,7 +277,9 @@ CHECKS = {
              "keys are skipped without stopping; the run returns within bounded fake time; a busy key under key_exists=none may stop the run but must not be overwritten silently. A key whose DUMP answered nil must not appear on the target; an expiring key that was gone when PTTL was asked must not appear as a persistent key. Key files are also tried with one empty line at every position.",
         note="the order in which databases are visited is a Go map order (not controlled; the oracle is on the final state only); cluster and special-cloud scanners are out of scope",
         rule="case = one point of the product; states = distinct cases; transitions = 4 per case (scan, dump/pttl, restore, confirm phases); non-trivial = all cases",
-        parts=[dict(pkg="./redis-shake", harness=["run"], test="^TestVerif_C16$", shards=16, gomaxprocs=2, budget=dict(quick=75, thorough=1200))],
+        parts=[dict(pkg="./redis-shake", harness=["run"], test="^TestVerif_C16$", shards=16, gomaxprocs=2, budget=dict(quick=75, thorough=1200)),
+               # the whole rump command: 1-3 source addresses into one target
+               dict(pkg="./redis-shake", harness=["run"], test="^TestVerif_C16M$", shards=4, gomaxprocs=2, budget=dict(quick=60, thorough=120))],
     ),
     "C17": dict(
         level="exploration",
